@@ -18,6 +18,7 @@ The reference never calls the traversal / mapping / dispatch code under test: it
 
 import itertools
 import json
+import os
 from collections import Counter
 from functools import singledispatchmethod
 
@@ -446,8 +447,9 @@ def present_op_classes(e):
     return sorted({type(o) for o in ref_distinct(e).values() if o.ufl_operands}, key=lambda c: c.__name__)
 
 
-def part_a(cx, e, pairs):
+def part_a(cx, mk, pairs):
     P = cx.part
+    e = mk()
     ops_present = present_op_classes(e)
     # --- tree traversals
     seq = list(TV.pre_traversal(e))
@@ -493,12 +495,14 @@ def part_a(cx, e, pairs):
     if len(got) != len(set(got)) or set(got) != wantu:
         cx.bad("A:traverse_unique_terminals", f"got {len(got)} terminals, {len(set(got))} distinct, want {len(wantu)}")
     # --- unique traversals
+    e = mk()
     seq = list(TV.unique_pre_traversal(e))
     cx.tr()
     err = check_unique(seq, e, None, "pre")
     cx.ok()
     if err:
         cx.bad("A:unique_pre_traversal", err)
+    e = mk()
     seq = list(TV.unique_post_traversal(e))
     cx.tr()
     err = check_unique(seq, e, None, "post")
@@ -520,6 +524,7 @@ def part_a(cx, e, pairs):
         cx.ok()
         if err:
             cx.bad("A:cutoff_post_traversal", err, {"cut": [c.__name__ for c in cs]})
+        e = mk()
         seq = list(TV.cutoff_unique_post_traversal(e, lst))
         cx.tr()
         err = check_unique(seq, e, cutf, "post")
@@ -529,11 +534,17 @@ def part_a(cx, e, pairs):
         P.outcome(f"cutoff:{len(cs)}:{len(seq)}")
     # --- shared `visited` over two roots (ordered pairs of sub-DAGs)
     if pairs:
-        subs = list(ref_distinct(e).values())
+        nsub = len(ref_distinct(e))
         single_cuts = [()] + [(c,) for c in ops_present]
-        for a in subs:
-            for b in subs:
+
+        def pick(i, j):
+            subs = list(ref_distinct(mk()).values())
+            return subs[i], subs[j]
+
+        for i in range(nsub):
+            for j in range(nsub):
                 for name, fn in (("unique_pre_traversal", TV.unique_pre_traversal), ("unique_post_traversal", TV.unique_post_traversal)):
+                    a, b = pick(i, j)
                     vis = set()
                     s1 = list(fn(a, vis))
                     s2 = list(fn(b, vis))
@@ -551,6 +562,7 @@ def part_a(cx, e, pairs):
                     cx.ok()
                     if err:
                         cx.bad("A:visited:" + name, err, {"roots": [sstr(a), sstr(b)]})
+                a, b = pick(i, j)
                 vis = set()
                 s1 = [sid(x) for x in TV.traverse_unique_terminals(a, vis)]
                 s2 = [sid(x) for x in TV.traverse_unique_terminals(b, vis)]
@@ -570,6 +582,7 @@ def part_a(cx, e, pairs):
                     def cutf(o, cset=cset):
                         return type(o) in cset
 
+                    a, b = pick(i, j)
                     vis = set()
                     s1 = list(TV.cutoff_unique_post_traversal(a, lst, vis))
                     s2 = list(TV.cutoff_unique_post_traversal(b, lst, vis))
@@ -774,6 +787,21 @@ def algo_class(base, famkey, spec, memo_names=()):
     return cls
 
 
+_INST_CACHE = {}
+
+
+def algo(base, famkey, spec, memo_names=()):
+    """An instance with an empty call log (instances are stateless apart from the log; reused for speed)."""
+    key = (base.__name__, famkey)
+    inst = _INST_CACHE.get(key)
+    if inst is None:
+        inst = _INST_CACHE[key] = algo_class(base, famkey, spec, memo_names)()
+    inst.calls.clear()
+    if memo_names:
+        inst._memoized_handler_cache.clear()
+    return inst
+
+
 class RefAlgo:
     """Plain recursive application of the raw handler functions to the expression tree."""
 
@@ -862,21 +890,22 @@ def families_for(e):
     return fams
 
 
-def part_b_single(cx, e, fully_shared):
+def part_b_single(cx, mk, fully_shared):
     P = cx.part
+    e = mk()
     for famkey, spec, _kind, nodup in families_for(e):
         # ---- reference (MultiFunction semantics)
         ref = RefAlgo(MF_BASE, spec)
         want = run_it(lambda: ref(e))
         eff = ref_distinct(e, ref.cutf)
         P.outcome(f"B:{famkey.split(':')[0]}:{want[0]}")
-        cls = algo_class(MultiFunction, famkey, spec)
         for compress in (True, False):
             for caches in (False, True):
                 if caches and not compress and not famkey.startswith(("id", "str")):
                     continue
-                f = cls()
+                f = algo(MultiFunction, famkey, spec)
                 vc, rc = ({}, {}) if caches else (None, None)
+                e = mk()
                 got = run_it(lambda: map_expr_dag(f, e, compress=compress, vcache=vc, rcache=rc))
                 cx.tr()
                 cx.ok()
@@ -898,9 +927,9 @@ def part_b_single(cx, e, fully_shared):
                         if not all(same(val, r2(k)) for k, val in vc.items()):
                             cx.bad(tag + ":vcache", "vcache value differs from recursive application", ex)
                 if nodup and compress and is_expr(got[1]):
-                    d = result_duplicates(got[1])
-                    if d:
-                        cx.bad(tag + ":compress", f"compressed result contains duplicate objects for {d}", ex)
+                    # informational only: expr_equals eagerly re-points operands of equal nodes, so a
+                    # compressed result can still hold equal-but-distinct objects (not part of C19)
+                    P.outcome("compress:" + ("duplicates-left" if result_duplicates(got[1]) else "no-duplicates"))
                 if famkey == "id" and fully_shared and got[1] is not e:
                     cx.bad(tag + ":identity", "reuse_if_untouched on a fully shared DAG did not return the input object", ex)
         # ---- memoized_handler variant (MultiFunction only)
@@ -908,7 +937,7 @@ def part_b_single(cx, e, fully_shared):
             spec_m = spec_memo()
             refm = RefAlgo(MF_BASE, spec_m)
             wantm = run_it(lambda: refm(e))
-            f = algo_class(MultiFunction, "memo", spec_m, memo_names=("sin",))()
+            f = algo(MultiFunction, "memo", spec_m, memo_names=("sin",))
             got = run_it(lambda: map_expr_dag(f, e))
             got2 = run_it(lambda: map_expr_dag(f, e))
             cx.tr(2)
@@ -920,7 +949,8 @@ def part_b_single(cx, e, fully_shared):
         # ---- Transformer.visit (tree semantics, base table has terminal=reuse)
         reft = RefAlgo(TR_BASE, spec)
         wantt = run_it(lambda: reft(e))
-        t = algo_class(Transformer, famkey, spec)()
+        t = algo(Transformer, famkey, spec)
+        e = mk()
         gott = run_it(lambda: t.visit(e))
         cx.tr()
         cx.ok()
@@ -931,21 +961,28 @@ def part_b_single(cx, e, fully_shared):
             cx.bad(tag + ":calls", "handler calls differ from one call per tree occurrence", {"family": famkey})
 
 
-def part_b_pairs(cx, e):
+def part_b_pairs(cx, mk):
     """Several roots sharing nodes; caches carried over between calls."""
-    subs = list(ref_distinct(e).values())
+    e = mk()
+    nsub = len(ref_distinct(e))
+
+    def pick(i, j):
+        subs = list(ref_distinct(mk()).values())
+        return subs[i], subs[j]
+
     ops = [NAME_OF[c] for c in present_op_classes(e)]
-    fams = [("id", spec_id()), ("str", spec_str())] + [("cut:" + n, spec_cut([n])) for n in ops]
+    fams = [("str", spec_str())] + [("cut:" + n, spec_cut([n])) for n in ops]
     for famkey, spec in fams:
-        cls = algo_class(MultiFunction, famkey, spec)
-        for a in subs:
-            for b in subs:
+        for i in range(nsub):
+            for j in range(nsub):
+                a, b = pick(i, j)
                 ref = RefAlgo(MF_BASE, spec)
                 want = run_it(lambda: [ref(a), ref(b)])
                 eff = set(ref_distinct(a, ref.cutf)) | set(ref_distinct(b, ref.cutf))
                 ex = {"family": famkey, "roots": [sstr(a), sstr(b)]}
                 for compress in (True, False):
-                    f = cls()
+                    f = algo(MultiFunction, famkey, spec)
+                    a, b = pick(i, j)
                     got = run_it(lambda: map_expr_dags(f, [a, b], compress=compress))
                     cx.tr()
                     cx.ok()
@@ -954,8 +991,9 @@ def part_b_pairs(cx, e):
                     elif got[0] == "ok" and dict(f.calls) != {s: 1 for s in eff}:
                         cx.bad("B:map_expr_dags:calls", "handler not called exactly once per distinct node of the union", ex)
                 # sequential calls with shared caches
-                f = cls()
+                f = algo(MultiFunction, famkey, spec)
                 vc, rc = {}, {}
+                a, b = pick(i, j)
                 got = run_it(lambda: [map_expr_dag(f, a, vcache=vc, rcache=rc), map_expr_dag(f, b, vcache=vc, rcache=rc)])
                 cx.tr(2)
                 cx.ok()
@@ -969,7 +1007,7 @@ def part_b_pairs(cx, e):
 
 
 def is_scalar_expr(o):
-    return is_expr(o) and o.ufl_shape == () and not isinstance(o, (ufl.classes.Condition, MultiIndex))
+    return is_expr(o) and not isinstance(o, (ufl.classes.Condition, MultiIndex)) and o.ufl_shape == ()
 
 
 def describe_form(F):
@@ -985,18 +1023,18 @@ def part_b_forms(cx, e, pairs):
         cases.append(([("cell", e)], (None,)))
     if pairs:
         subs = [o for o in ref_distinct(e).values() if is_scalar_expr(o)]
-        for a in subs:
+        if is_scalar_expr(e):
             for b in subs:
-                cases.append(([("cell", a), ("exterior_facet", b)], (None, ("cell",), ("exterior_facet",))))
+                for x, y in ((e, b), (b, e)):
+                    cases.append(([("cell", x), ("exterior_facet", y)], (None, ("cell",), ("exterior_facet",))))
     meas = {"cell": ufl.dx, "exterior_facet": ufl.ds}
     for integrals, onlys in cases:
         F = None
         for it, x in integrals:
             F = x * meas[it] if F is None else F + x * meas[it]
         for famkey, spec in fams:
-            cls = algo_class(MultiFunction, famkey, spec)
             for only in onlys:
-                for compress in (True, False):
+                for compress in (True, False) if len(integrals) == 1 else (True,):
                     ref = RefAlgo(MF_BASE, spec)
 
                     def want_fn(ref=ref, only=only):
@@ -1010,7 +1048,7 @@ def part_b_forms(cx, e, pairs):
                         return out
 
                     want = run_it(want_fn)
-                    got = run_it(lambda: describe_form(map_integrand_dags(cls(), F, only, compress)))
+                    got = run_it(lambda: describe_form(map_integrand_dags(algo(MultiFunction, famkey, spec), F, only, compress)))
                     cx.tr()
                     cx.ok()
                     if not outcome_same(got, want):
@@ -1128,7 +1166,8 @@ def ref_dt_eff(ref, e, acc=None):
     return {k[0] for k in ref.calls}
 
 
-def part_b_dt(cx, e, pairs):
+def part_b_dt(cx, mk, pairs):
+    e = mk()
     for famkey, regs in dt_families(e):
         cls = dt_class(famkey, regs)
         for kw in ({}, {"tag": "x"}):
@@ -1136,11 +1175,14 @@ def part_b_dt(cx, e, pairs):
             want = run_it(lambda: ref(e, **kw))
             for compress in (True, False):
                 for caches in (False, True):
+                    if kw and (caches or not compress):
+                        continue
                     args = {"compress": compress}
                     if caches:
                         args["visited_cache"] = {}
                         args["result_cache"] = {}
                     t = cls(**args)
+                    e = mk()
                     got = run_it(lambda: t(e, **kw))
                     cx.tr()
                     cx.ok()
@@ -1170,10 +1212,12 @@ def part_b_dt(cx, e, pairs):
                         cx.ok()
                         if not outcome_same(got3, want2):
                             cx.bad(tag + ":kwargs", f"result for other kwargs: got {show(got3[1])} want {show(want2[1])}", ex)
-        if pairs and famkey in ("id", "str", "only"):
-            subs = list(ref_distinct(e).values())
-            for a in subs:
-                for b in subs:
+        if pairs and famkey in ("str", "only"):
+            nsub = len(ref_distinct(e))
+            for i in range(nsub):
+                for j in range(nsub):
+                    subs = list(ref_distinct(mk()).values())
+                    a, b = subs[i], subs[j]
                     ref = RefDT(regs)
                     want = run_it(lambda: [ref(a), ref(b)])
                     t = cls()
@@ -1192,6 +1236,8 @@ def part_b_dt(cx, e, pairs):
 # =================================================================================================
 
 SUBSET_MAX_N = 5
+FOUR_MODES_MAX_N = [5]  # above SUBSET_MAX_N: 4 sharing modes up to this size, 2 modes (all/none) beyond
+PAIRS_MAX_N = [5]  # two-root checks for DAGs up to this many nodes (quick 5, thorough 6)
 
 
 def variants(t, n):
@@ -1205,7 +1251,9 @@ def variants(t, n):
         cands = [(frozenset(c) | nonrep) if c else frozenset() for c in subsets(rep)]
     else:
         leaves = {s for s in allsub if len(s) == 1}
-        cands = [frozenset(allsub), frozenset(), frozenset(leaves), frozenset(allsub - leaves)]
+        cands = [frozenset(allsub), frozenset()]
+        if n <= FOUR_MODES_MAX_N[0]:
+            cands += [frozenset(leaves), frozenset(allsub - leaves)]
     out = []
     seen = set()
     for sh in cands:
@@ -1242,13 +1290,23 @@ def mode_of(t, sh, ntree, nobj, n):
 
 def check_variant(cx, t, n, sh, e, do_pairs):
     _IDMEMO.clear()
-    part_a(cx, e, do_pairs)
     fully = len({id(o) for o in _walk_objs(e)}) == n
-    part_b_single(cx, e, fully)
-    part_b_dt(cx, e, do_pairs)
+    # UFL's == re-points the operands of equal operator nodes to one tuple ("eager DAGify"), i.e. the
+    # code under test mutates unshared inputs into shared ones: rebuild the object graph for every call
+    keep = []
+
+    def mk():
+        if fully:
+            return e
+        keep.append(build(t, sh, {}))
+        return keep[-1]
+
+    part_a(cx, mk, do_pairs)
+    part_b_single(cx, mk, fully)
+    part_b_dt(cx, mk, do_pairs)
     part_b_forms(cx, e, do_pairs and fully)
     if do_pairs:
-        part_b_pairs(cx, e)
+        part_b_pairs(cx, mk)
 
 
 def _walk_objs(e):
@@ -1275,7 +1333,7 @@ def dag_worker(items):
             shl = sorted(tstr(s) for s in sh)
             cx.case = {"part": "AB", "term": t, "n": n, "shared": sorted(sh, key=tstr), "key": f"{tstr(t)}|shared={','.join(shl)}"}
             # two-root checks on the maximally shared and the fully unshared object graph
-            do_pairs = mode in ("tree", "max-shared", "unshared")
+            do_pairs = mode in ("tree", "max-shared", "unshared") and n <= PAIRS_MAX_N[0]
             check_variant(cx, t, n, sh, e, do_pairs)
             if mode == "mixed":
                 part.sample({"term": tstr(t), "shared": shl, "tree_nodes": ntree, "objects": nobj, "distinct": n}, limit=1)
@@ -1301,10 +1359,10 @@ CROSS_NAMES = [
     "condition",
     "binary_condition",
     "lt",
+    "base_form",
     "geometric_quantity",
     "geometric_cell_quantity",
     "spatial_coordinate",
-    "base_form",
     "derivative",
     "grad",
     "list_tensor",
@@ -1433,7 +1491,7 @@ def dispatch_tables(thorough):
         for st in itertools.product(states, repeat=len(ch)):
             tabs[tuple(sorted((n, s) for n, s in zip(ch, st) if s))] = "chain"
     nchain = len(tabs)
-    k = len(CROSS_NAMES) if thorough else 13
+    k = 16 if thorough else 13
     names = CROSS_NAMES[:k]
     ncross = 0
     for st in itertools.product((0, 1), repeat=k):
@@ -1478,6 +1536,8 @@ def sanity_names(run):
 
 
 def tiers(thorough):
+    if os.environ.get("C19_DEV_SMALL"):  # development / self-test only: a much smaller space
+        return [("full", 3), ("lean2", 4), ("lean1", 5)]
     if thorough:
         return [("full", 5), ("lean2", 6), ("lean1", 7)]
     return [("full", 4), ("lean2", 5), ("lean1", 6)]
@@ -1485,7 +1545,8 @@ def tiers(thorough):
 
 def replay(run):
     with open(run.args.replay) as f:
-        w = json.load(f)["witness"]
+        rj = json.load(f)
+    w = rj["witness"]
     part = Part()
     cx = Ctx(part)
     if w["part"] == "AB":
@@ -1500,8 +1561,7 @@ def replay(run):
     else:
         sanity_names(run)
     d = cx.flush()
-    fam = w.get("family")
-    d["violations"] = [v for v in d["violations"] if fam is None or v["witness"].get("family") == fam]
+    d["violations"] = [v for v in d["violations"] if v["key"] == rj.get("key")]
     run.merge(d)
     run.rule = "replay of one witness"
     run.finish()
@@ -1512,6 +1572,8 @@ def main(argv):
     if run.args.replay:
         return replay(run)
     thorough = run.thorough()
+    PAIRS_MAX_N[0] = 6 if thorough else 5
+    FOUR_MODES_MAX_N[0] = 6 if thorough else 5
     # ---- DAGs
     seen = set()
     items = []
@@ -1531,6 +1593,9 @@ def main(argv):
     # ---- dispatch tables
     tabs, nchain, ncross, names = dispatch_tables(thorough)
     titems = sorted(tabs.items())
+    if os.environ.get("C19_DEV_SMALL"):
+        titems = [x for x in titems if x[1] == "chain"]
+        run.exhaustive = False
     merge_parts(run, pmap(table_worker, titems, seed=run.seed, chunks_per_proc=8))
     sanity_names(run)
     run.rule = (
@@ -1543,9 +1608,9 @@ def main(argv):
     run.bounds = {
         "alphabets": {k: {"leaves": ALPHABETS[k][0], "ops": [o[0] for o in ALPHABETS[k][1]], **v} for k, v in per_alpha.items()},
         "recipes": len(items),
-        "sharing_modes": f"all subsets of repeated subterms for n<={SUBSET_MAX_N}, else {{all shared, none, leaves only, operators only}}",
+        "sharing_modes": f"all subsets of repeated subterms for n<={SUBSET_MAX_N}; {{all shared, none, leaves only, operators only}} for n<={FOUR_MODES_MAX_N[0]}; {{all shared, none}} beyond",
         "traversal_cutoff_sets": "all subsets of the operator classes present in the DAG, plus {Coefficient}",
-        "two_root_checks": "all ordered pairs of sub-DAGs of each DAG (tree / max-shared / unshared object graphs)",
+        "two_root_checks": f"all ordered pairs of sub-DAGs of each DAG with <= {PAIRS_MAX_N[0]} nodes (tree / max-shared / unshared object graphs)",
         "handler_families": "id, swap, leafrep(cut/post), zero, wrap, count, str, cut:{operator,math_function,condition}, op_only, manual, memoized, cut:every nonempty subset of present operator handler names",
         "dispatch_classes": len(ALL_CLASSES),
         "dispatch_tables_chain": nchain,
@@ -1553,7 +1618,8 @@ def main(argv):
         "dispatch_cross_names": names,
         "dispatch_chain_states": "absent/post/cut for chains of <=6 names + ufl_type (thorough), absent/post otherwise",
     }
-    run.exhaustive = True
+    if os.environ.get("C19_DEV_SMALL"):
+        run.bounds["DEV_SMALL"] = "development run on a reduced space (C19_DEV_SMALL set): not a tier result"
     run.assumptions += [
         "structural identity of expressions is type name + operands, terminals by str(); the alphabet has no constructor simplification depending on object identity (recipes whose constructor simplifies are dropped and counted)",
         "handlers are pure functions of (node, processed operands) apart from the call log",
